@@ -167,6 +167,23 @@ def varargs_names(method, n):
     return ["*cmd"] * n
 
 
+_PARAMS = {}
+
+
+def param_names(klass, method):
+    """positional parameter names (after self) of the function the context wrapper wraps"""
+    key = (klass, method)
+    if key not in _PARAMS:
+        import inspect
+        f = getattr(klass, method, None)
+        f = getattr(f, "__wrapped__", f)
+        try:
+            _PARAMS[key] = list(inspect.getfullargspec(f).args[1:])
+        except TypeError:
+            _PARAMS[key] = []
+    return _PARAMS[key]
+
+
 def snapshot(c):
     raw = None
     st = getattr(c, "_ContextMixin__context_stack", None)
@@ -207,11 +224,10 @@ def run_case(case):
     del TRACE[:]
     cls = case["cls"]
     c = build(case)
-    params = {m: p for m, p in case.get("params", {}).items()}
     events = []
 
     def args_of(method, pos, kw):
-        names = params.get(method, [])
+        names = param_names(type(c), method)
         extra = varargs_names(method, max(0, len(pos) - len(names)))
         pnames = list(names[:len(pos)]) + extra
         return ([materialise(cls, method, n, v) for n, v in zip(pnames, pos)],
